@@ -6,6 +6,7 @@ PROP = dict(
     namespaces=["Comdex.C09"],
     required_theorems=["Comdex.C09.safe_never_seized", "Comdex.C09.unsafe_test_is_strict",
                        "Comdex.C09.ratio_test_safe_side_exact", "Comdex.C09.borrow_ratio_test_safe_side_exact",
+                       "Comdex.C09.borrow_threshold_cases", "Comdex.C09.borrow_at_or_below_threshold_is_safe",
                        "Comdex.C09.slice_in_bounds", "Comdex.C09.slice_panics_iff_counter_exceeds_list",
                        "Comdex.C09.panic_reachable_if_counter_gt_length", "Comdex.C09.pass_follows_abstract_sweep",
                        "Comdex.C09.sweep_live_partial", "Comdex.C09.two_sweeps_if_one_shift",
